@@ -109,3 +109,48 @@ T('c19-twin-expdecay-max', 'C19', 'max(step, 1) instead of the zero branch',
   (HP, "        if step == 0:\n            step = 1\n        return min(1 - (1 / step), min_value)", "        return min(1 - (1 / max(step, 1)), min_value)"))
 T('c19-twin-expdecay-commute', 'C19', 'min(cap, 1 - 1/step)',
   (HP, "        return min(1 - (1 / step), min_value)", "        return min(min_value, 1 - 1 / step)"))
+
+# ---------------------------------------------------------------- C05
+M('c05-gate-plus-one', 'C05', 'AFF-GATE', '(steps+1) % inv_update_steps',
+  (BP, "        if self.steps % self.inv_update_steps == 0:", "        if (self.steps + 1) % self.inv_update_steps == 0:"))
+M('c05-wrong-interval', 'C05', 'DOM-INVGATE', 'inverse phase gated by the factor interval',
+  (BP, "        if self.steps % self.inv_update_steps == 0:", "        if self.steps % self.factor_update_steps == 0:"))
+M('c05-extra-conjunct', 'C05', 'DOM-INVGATE', 'inverse refresh also needs a factor step',
+  (BP, "        if self.steps % self.inv_update_steps == 0:", "        if self.steps % self.inv_update_steps == 0 and self.steps % self.factor_update_steps == 0:"))
+M('c05-skip-step0', 'C05', 'DOM-INVGATE', 'no inverse on step 0',
+  (BP, "        if self.steps % self.inv_update_steps == 0:", "        if self.steps > 0 and self.steps % self.inv_update_steps == 0:"))
+M('c05-hook-wrong-interval', 'C05', 'DOM-FGATE', 'backward hook gated by the inverse interval',
+  (BP, "        if self.steps % self.factor_update_steps == 0:\n            name, layer = self._layers[module]\n            if isinstance(grad_output",
+       "        if self.steps % self.inv_update_steps == 0:\n            name, layer = self._layers[module]\n            if isinstance(grad_output"))
+M('c05-hp-next-step', 'C05', 'SIB-HP', 'damping schedule evaluated at steps+1',
+  (BP, "            self._damping(self.steps)", "            self._damping(self.steps + 1)"))
+M('c05-hp-wrong-field', 'C05', 'SIB-HP', 'lr property returns kl_clip when constant',
+  (BP, "        return self._lr(self.steps) if callable(self._lr) else self._lr", "        return self._lr(self.steps) if callable(self._lr) else self._kl_clip"))
+M('c05-double-increment', 'C05', 'OWN-STEPS', 'counter incremented twice on inverse steps',
+  (BP, "            self._tdc.flush_allreduce_buckets()\n\n        # Compute Preconditioned Gradients", "            self._tdc.flush_allreduce_buckets()\n            self._steps += 1\n\n        # Compute Preconditioned Gradients"))
+M('c05-increment-early', 'C05', 'OWN-STEPS', 'counter incremented before the gradient phase',
+  (BP, "        # Compute Preconditioned Gradients\n", "        self._steps += 1\n        # Compute Preconditioned Gradients\n"),
+  (BP, "            layer.update_grad(scale=scale)\n\n        self._steps += 1\n", "            layer.update_grad(scale=scale)\n\n"))
+M('c05-mini-not-reset', 'C05', 'OWN-MINI', 'micro-step table not cleared',
+  (BP, "        self._steps += 1\n        self._mini_steps = defaultdict(int)\n", "        self._steps += 1\n"))
+M('c05-damping-default', 'C05', 'DOM-DAMPARG', 'compute_g_inv called with the layer default damping',
+  (BP, "                if get_rank() == self._assignment.inv_worker(name, 'G'):\n                    layer.compute_g_inv(damping=self.damping)", "                if get_rank() == self._assignment.inv_worker(name, 'G'):\n                    layer.compute_g_inv()"))
+M('c05-stale-damping-load', 'C05', 'DOM-DAMPARG', 'damping read before the checkpoint is applied',
+  (BP, "        self._steps = state_dict['steps']\n", "        damping = self.damping\n        self._steps = state_dict['steps']\n"),
+  (BP, "                layer.compute_a_inv(damping=self.damping)\n                layer.compute_g_inv(damping=self.damping)\n                if (\n", "                layer.compute_a_inv(damping=damping)\n                layer.compute_g_inv(damping=damping)\n                if (\n"))
+M('c05-precond-gated', 'C05', 'DOM-ALWAYS', 'preconditioning skipped off inverse steps',
+  (BP, "            if self._assignment.is_grad_worker(name):\n                layer.preconditioned_grad(damping=self.damping)", "            if self._assignment.is_grad_worker(name) and self.steps % self.inv_update_steps == 0:\n                layer.preconditioned_grad(damping=self.damping)"))
+M('c05-so-written-elsewhere', 'C05', 'OWN-SO', 'preconditioned_grad recomputes eigenvalues clamp in place of cache',
+  (LE, "        grad = self.module.get_grad()\n        grad_type = grad.dtype\n        grad = grad.to(self.qa.dtype)\n        v1 = self.qg.t() @ grad @ self.qa", "        grad = self.module.get_grad()\n        grad_type = grad.dtype\n        grad = grad.to(self.qa.dtype)\n        self.qa = self.qa.contiguous()\n        v1 = self.qg.t() @ grad @ self.qa"))
+T('c05-twin-hoist-damping-step', 'C05', 'damping hoisted to a local at the top of step()',
+  (BP, "        # Compute Inverses\n        if self.steps % self.inv_update_steps == 0:", "        damping = self.damping\n        # Compute Inverses\n        if self.steps % self.inv_update_steps == 0:"),
+  (BP, "                if get_rank() == self._assignment.inv_worker(name, 'A'):\n                    layer.compute_a_inv(damping=self.damping)", "                if get_rank() == self._assignment.inv_worker(name, 'A'):\n                    layer.compute_a_inv(damping=damping)"))
+T('c05-twin-gate-commuted', 'C05', '0 == steps % interval',
+  (BP, "        if self.steps % self.inv_update_steps == 0:", "        if 0 == self._steps % self.inv_update_steps:"))
+T('c05-twin-not-neq', 'C05', 'not (steps % interval != 0)',
+  (BP, "        if self.steps % self.inv_update_steps == 0:", "        if not self.steps % self.inv_update_steps != 0:"))
+T('c05-twin-positional-damping', 'C05', 'damping passed positionally',
+  (BP, "                    layer.compute_g_inv(damping=self.damping)\n                if (\n                    self._assignment.broadcast_inverses()\n                    and self._assignment.is_grad_worker(name)\n                ):\n                    layer.broadcast_g_inv(\n                        src=self._assignment.inv_worker(name, 'G'),\n                        group=self._assignment.grad_worker_group(name),\n                    )\n            self._tdc",
+       "                    layer.compute_g_inv(self.damping)\n                if (\n                    self._assignment.broadcast_inverses()\n                    and self._assignment.is_grad_worker(name)\n                ):\n                    layer.broadcast_g_inv(\n                        src=self._assignment.inv_worker(name, 'G'),\n                        group=self._assignment.grad_worker_group(name),\n                    )\n            self._tdc"))
+T('c05-twin-hp-if-stmt', 'C05', 'property written with if/return',
+  (BP, "        return self._lr(self.steps) if callable(self._lr) else self._lr", "        if callable(self._lr):\n            return self._lr(self.steps)\n        return self._lr"))
